@@ -94,6 +94,9 @@ func TestC02Script(t *testing.T) {
 			t.Fatalf("VKEY[C02/params-script-mismatch] ParamsToTxScript differs: %v", err)
 		}
 
+		if ref := scriptpolicy.Build(scriptpolicy.Params{Maker: makerPub, Taker: takerPub, Hash: hash[:], CSV: csv}); !bytes.Equal(ref, script) {
+			t.Fatalf("VKEY[C02/script-differs-from-template] csv=%d\n repo %x\n ref  %x", csv, script, ref)
+		}
 		wsh := sha256.Sum256(script)
 		pkScript, _ := txscript.NewScriptBuilder().AddOp(txscript.OP_0).AddData(wsh[:]).Script()
 
